@@ -553,6 +553,9 @@ def run(rep, programs):
     # drain returns every reservation, also an exhausted one: its tree must lose the reserved flag (validate(), later reservations)
     from props import c10
     c10.r_drain_total(rep, prog)
+    # a multi-entry claim that fails part-way must restore every entry it changed, or an unowned huge frame stays marked allocated
+    import multicas
+    multicas.check_undo_range(rep, prog, "R-UNDO-RANGE", lib.need_body)
     # the counters the statistics read are bit-packed: they must be wide enough for a completely free tree / huge frame
     from props import c09
     c09.p_packed_widths(rep, prog)
